@@ -4,7 +4,10 @@ import codecs
 
 from cpverif.models import rangemodel as R
 
+import re
+
 ACCEPT, REFUSE, UNJUDGED = "accept", "refuse", "unjudged"
+_PYTHON_ONLY_NUMBER = re.compile(r"(?:0[oO][0-7_]+|0[bB][01_]+|[0-9][0-9_]*_[0-9_]*|0[xX][0-9a-fA-F_]*_[0-9a-fA-F_]*)\Z")
 
 COMMON = ["header", "allowed_characters", "encoding"]
 APPLIES = {
@@ -60,6 +63,7 @@ def _maybe_wellformed(value):
         (v.isalpha() and v.isascii() and v.lower() not in R.SYMBOLS)  # unknown symbolic name
         or (len(v) >= 2 and v[0] in "'\"" and v[-1] == v[0] and "\\" not in v and len(v) - 2 >= 2 and v[0] not in v[1:-1])  # 2+ characters quoted
         or (v.replace(" ", "").isdigit() and " " in v)  # two numbers
+        or _PYTHON_ONLY_NUMBER.match(v) is not None  # 0o54, 0b101100, 4_4: numbers for Python's int(), not character codes
     )
     return not clearly_bad
 
